@@ -819,6 +819,12 @@ def template_scenarios(rng, fe):
         ev = [{'t': d, 'kind': 'cancel', 'i': rng.choice([0, 1])}]
         ev.append({'t': d + rng.choice([0, 1, 10]), 'kind': 'nack', 'i': 0, 'reason': 150} if kind == 'nack' else {'t': d + rng.choice([0, 1, 10]), 'kind': 'data', 'd': 0})
         out.append(('cancel-then-' + kind, sc([I(0, 'ab', L=L), I(1, 'ab', L=L + rng.choice([0, 50]))], [{'id': 0, 'name': 'ab'}], ev)))
+    # T2a: lifetimes beyond the 16-bit (and 21-bit) range of milliseconds (below the hour the bystander application's Interest lives): Data late inside the lifetime counts, silence ends at the deadline
+    for Lbig in (65535, 65536, 70000, 120000, 2_100_000):
+        out.append(('long-lifetime-data-late', sc([I(0, 'ab', L=Lbig)], [{'id': 0, 'name': 'ab'}],
+                                                 [{'t': Lbig - rng.choice([1, 7, 400]), 'kind': 'data', 'd': 0}])))
+        out.append(('long-lifetime-silence', sc([I(0, 'ab', L=Lbig), I(1, 'abc', te=3, L=Lbig + 10)], [{'id': 0, 'name': 'abc'}],
+                                               [{'t': Lbig + 5, 'kind': 'data', 'd': 0}])))
     # T2b: two Interests equal in every argument; the one expressed later ends first (shorter lifetime / cancelled): the other lives on
     out.append(('equal-interests-second-ends-first', sc([I(0, 'ab', L=L * 4), I(1, 'ab', te=5, L=L)], [{'id': 0, 'name': 'ab'}],
                                                         [{'t': L * 2, 'kind': 'data', 'd': 0}])))
